@@ -55,6 +55,36 @@ PROBES = ["short_circuit_after_recorded_case", "model_eval_between_raw_evals",
           "model_is_truth_equal_values", "bundled_system"]
 HARD_CAP_S = 240.0
 CHUNK = 4
+BUNDLED_FAMILIES = ["linear", "quadratic", "cubic", "anns", "min_anns",
+                    "peaks", "partially_linear", "predefined"]
+BUNDLED_WATCHDOG_S = 150.0
+_DIMS: dict = {}
+
+
+class _Undecided(Exception):
+    pass
+
+
+def _bundled_controller(system, fam: str, k: int):
+    import importlib
+    mod = {"anns": "ann", "min_anns": "min_ann"}.get(fam, fam)
+    cmod = importlib.import_module(
+        f"moptipyapps.dynamic_control.controllers.{mod}")
+    made = getattr(cmod, fam)(system)
+    if hasattr(made, "controller") and hasattr(made, "param_dims"):
+        return made
+    made = list(made)
+    return made[k % len(made)]
+
+
+def _bundled_dim(b: list) -> int:
+    key = tuple(b)
+    if key not in _DIMS:
+        inst, _ = _build({"bundled": b})
+        _DIMS[key] = int(inst.controller.param_dims)
+    return _DIMS[key]
+
+
 MODELS = ["lin:1", "lin:2", "lin:3", "div", "nan_after:0.5", "nan_after:0.0",
           "njit_lin", "real"]
 
@@ -119,13 +149,11 @@ def gen_x(rng: random.Random, dim: int) -> tuple[list, str]:
 
 def generate(rng: random.Random, batch: dict) -> dict:
     if batch.get("bundled"):
-        system = {"bundled": rng.choice(
-            [["stuart_landau", "linear"], ["stuart_landau", "quadratic"],
-             ["lorenz", "linear"]])}
-        dim = {"linear": {"stuart_landau": 2, "lorenz": 3},
-               "quadratic": {"stuart_landau": 5, "lorenz": 9}}[
-            system["bundled"][1]][system["bundled"][0]]
-        sdcd = ({"stuart_landau": 2, "lorenz": 3}[system["bundled"][0]], 1)
+        sysname = rng.choice(["stuart_landau", "lorenz"])
+        fam = rng.choice(BUNDLED_FAMILIES)
+        system = {"bundled": [sysname, fam, rng.randrange(8)]}
+        dim = _bundled_dim(system["bundled"])
+        sdcd = ({"stuart_landau": 2, "lorenz": 3}[sysname], 1)
     else:
         system = gen_system(rng)
         dim = system["sd"] * system["cd"]
@@ -274,7 +302,8 @@ def _build(sysdoc: dict):
     from moptipyapps.dynamic_control.system import System
     if "bundled" in sysdoc:
         import importlib
-        sname, cname = sysdoc["bundled"]
+        sname, cname = sysdoc["bundled"][0], sysdoc["bundled"][1]
+        cidx = sysdoc["bundled"][2] if len(sysdoc["bundled"]) > 2 else 0
         smod = importlib.import_module(
             f"moptipyapps.dynamic_control.systems.{sname}")
         base = getattr(smod, {"stuart_landau": "STUART_LANDAU_4",
@@ -286,9 +315,7 @@ def _build(sysdoc: dict):
                         np.array(base.training_starting_states),
                         100, 5.0, 60, 4.0, (0,))
         system.equations = base.equations
-        cmod = importlib.import_module(
-            f"moptipyapps.dynamic_control.controllers.{cname}")
-        controller = getattr(cmod, cname)(system)
+        controller = _bundled_controller(system, cname, cidx)
         return Instance(system, controller), system.equations
     sd, cd = int(sysdoc["sd"]), int(sysdoc["cd"])
     Al = [[float(v) for v in r] for r in sysdoc["A"]]
@@ -329,6 +356,30 @@ def _same_float(a: float, b: float) -> bool:
 
 
 def execute(doc: dict) -> dict:
+    """Bundled nonlinear systems get a watchdog: a legally stiff closed loop is
+    slow, not wrong - such a scenario is recorded as undecided."""
+    import signal
+    if "bundled" not in doc["system"]:
+        return _execute(doc)
+
+    def on_alarm(signum, frame):
+        raise _Undecided
+    old = signal.signal(signal.SIGALRM, on_alarm)
+    signal.setitimer(signal.ITIMER_REAL, BUNDLED_WATCHDOG_S)
+    try:
+        return _execute(doc)
+    except _Undecided:
+        res = core.new_result()
+        core.bump(res["probes"], "undecided:bundled_watchdog")
+        core.bump(res["probes"], "bundled_system")
+        res["events"].append(["undecided", "watchdog"])
+        return res
+    finally:
+        signal.setitimer(signal.ITIMER_REAL, 0.0)
+        signal.signal(signal.SIGALRM, old)
+
+
+def _execute(doc: dict) -> dict:
     import warnings
 
     import numpy as np
